@@ -423,4 +423,161 @@ theorem historyTranspose_spec {β : Type} (r0 : List β) (rest : List (List β))
     rw [List.getElem?_map, List.getElem?_range hlt]
     simp only [Option.map_some, Option.bind_some, column, List.getElem?_map, hm, Option.map_some, hn]
 
+/-! ### the options merge of `itstat_func_and_object` -/
+
+section
+variable {β : Type}
+
+theorem dictGet_set (d : List (String × β)) (k k' : String) (v : β) :
+    dictGet (dictSet d k v) k' = if k = k' then some v else dictGet d k' := by
+  induction d with
+  | nil => simp [dictSet, dictGet]
+  | cons p r ih =>
+    obtain ⟨a, x⟩ := p
+    by_cases h : a = k
+    · subst h
+      by_cases h2 : a = k' <;> simp [dictSet, dictGet, h2]
+    · by_cases h2 : a = k'
+      · subst h2
+        have : ¬ k = a := fun e => h e.symm
+        simp [dictSet, dictGet, h, this]
+      · simp [dictSet, dictGet, h, h2, ih]
+
+/-- `update`: the caller's value wins, keys it does not have keep the default
+    (`u` a dictionary: distinct keys) -/
+theorem dictGet_update (d u : List (String × β)) (hu : (u.map (·.1)).Nodup) (k : String) :
+    dictGet (dictUpdate d u) k = match dictGet u k with
+      | some v => some v
+      | none => dictGet d k := by
+  induction u generalizing d with
+  | nil => simp [dictUpdate, dictGet]
+  | cons p r ih =>
+    obtain ⟨a, x⟩ := p
+    simp only [List.map_cons, List.nodup_cons] at hu
+    have ih' := ih (dictSet d a x) hu.2
+    simp only [dictUpdate, List.foldl_cons] at ih' ⊢
+    rw [ih']
+    by_cases h : a = k
+    · subst h
+      have hnone : dictGet r a = none := by
+        have hn := hu.1
+        clear ih ih' hu
+        induction r with
+        | nil => rfl
+        | cons q r ihr =>
+          obtain ⟨b, y⟩ := q
+          simp only [List.map_cons, List.mem_cons, not_or] at hn
+          have : ¬ b = a := fun e => hn.1 e.symm
+          simp [dictGet, this, ihr hn.2]
+      simp [dictGet, hnone, dictGet_set]
+    · simp only [dictGet, h, if_false, dictGet_set]
+
+theorem dictGet_filter_ne (d : List (String × β)) (k k' : String) (h : k' ≠ k) :
+    dictGet (d.filter (fun p => p.1 != k)) k' = dictGet d k' := by
+  induction d with
+  | nil => rfl
+  | cons p r ih =>
+    obtain ⟨a, x⟩ := p
+    by_cases h1 : a = k
+    · subst h1
+      have : ¬ a = k' := fun e => h e.symm
+      have hb : (a != a) = false := by simp
+      rw [List.filter_cons]
+      simp only [hb, Bool.false_eq_true, if_false, ih, dictGet, this]
+    · have hb : (a != k) = true := by simp [h1]
+      rw [List.filter_cons]
+      simp only [hb, if_true, dictGet, ih]
+
+theorem dictGet_filter_self (d : List (String × β)) (k : String) :
+    dictGet (d.filter (fun p => p.1 != k)) k = none := by
+  induction d with
+  | nil => rfl
+  | cons p r ih =>
+    obtain ⟨a, x⟩ := p
+    by_cases h1 : a = k
+    · subst h1
+      have hb : (a != a) = false := by simp
+      rw [List.filter_cons]
+      simp only [hb, Bool.false_eq_true, if_false, ih]
+    · have hb : (a != k) = true := by simp [h1]
+      rw [List.filter_cons]
+      simp only [hb, if_true, dictGet, h1, if_false, ih]
+
+/-- the options a caller passes, as the code reads them: `None` and `{}` mean "defaults" -/
+def userGet (user : Option (List (String × β))) (k : String) : Option β :=
+  match user with
+  | some u => dictGet u k
+  | none => none
+
+theorem itstatSetup_spec (fields func displayOff : β) (user : Option (List (String × β)))
+    (hu : ∀ u, user = some u → (u.map (·.1)).Nodup) :
+    (itstatSetup fields func displayOff user).userAfter = user ∧
+    (itstatSetup fields func displayOff user).func = some ((userGet user "itstat_func").getD func) ∧
+    dictGet (itstatSetup fields func displayOff user).kwargs "itstat_func" = none ∧
+    dictGet (itstatSetup fields func displayOff user).kwargs "fields" = some ((userGet user "fields").getD fields) ∧
+    dictGet (itstatSetup fields func displayOff user).kwargs "display" = some ((userGet user "display").getD displayOff) ∧
+    ∀ k, k ≠ "itstat_func" → k ≠ "fields" → k ≠ "display" →
+      dictGet (itstatSetup fields func displayOff user).kwargs k = userGet user k := by
+  have hd : ∀ k, dictGet [("fields", fields), ("itstat_func", func), ("display", displayOff)] k =
+      if "fields" = k then some fields else if "itstat_func" = k then some func
+      else if "display" = k then some displayOff else none := by
+    intro k; simp [dictGet]
+  -- lookup in the merged dictionary
+  have hm : ∀ k, dictGet (mergedOptions [("fields", fields), ("itstat_func", func), ("display", displayOff)] user) k =
+      match userGet user k with
+      | some v => some v
+      | none => dictGet [("fields", fields), ("itstat_func", func), ("display", displayOff)] k := by
+    intro k
+    unfold mergedOptions
+    cases user with
+    | none => simp [userGet]
+    | some u =>
+      by_cases he : u.isEmpty = true
+      · have : u = [] := by simpa using he
+        subst this
+        simp [userGet, dictGet]
+      · have he' : u.isEmpty = false := by simpa using he
+        simp only [he', Bool.false_eq_true, if_false, userGet]
+        exact dictGet_update _ u (hu u rfl) k
+  refine ⟨rfl, ?_, ?_, ?_, ?_, ?_⟩
+  · simp only [itstatSetup, dictPop]
+    rw [hm, hd]
+    cases userGet user "itstat_func" <;> simp
+  · simp only [itstatSetup, dictPop]
+    exact dictGet_filter_self _ _
+  · simp only [itstatSetup, dictPop]
+    rw [dictGet_filter_ne _ _ _ (by decide), hm, hd]
+    cases userGet user "fields" <;> simp
+  · simp only [itstatSetup, dictPop]
+    rw [dictGet_filter_ne _ _ _ (by decide), hm, hd]
+    cases userGet user "display" <;> simp
+  · intro k h1 h2 h3
+    simp only [itstatSetup, dictPop]
+    rw [dictGet_filter_ne _ _ _ h1, hm, hd]
+    have a1 : ¬ "fields" = k := fun e => h2 e.symm
+    have a2 : ¬ "itstat_func" = k := fun e => h1 e.symm
+    have a3 : ¬ "display" = k := fun e => h3 e.symm
+    cases userGet user k <;> simp [a1, a2, a3]
+
+/-- any number of optimisers built from the same options object get the same setup, and the
+    object is what it was -/
+theorem itstatSetups_same (fields func displayOff : β) (n : Nat) (user : Option (List (String × β))) :
+    (itstatSetups fields func displayOff n user).2 = user ∧
+      ∀ s ∈ (itstatSetups fields func displayOff n user).1,
+        s.func = (itstatSetup fields func displayOff user).func ∧
+        s.kwargs = (itstatSetup fields func displayOff user).kwargs := by
+  induction n with
+  | zero => simp [itstatSetups]
+  | succ n ih =>
+    simp only [itstatSetups]
+    have hu : (itstatSetup fields func displayOff user).userAfter = user := rfl
+    rw [hu]
+    refine ⟨ih.1, ?_⟩
+    intro s hs
+    rcases List.mem_cons.mp hs with rfl | hs
+    · exact ⟨rfl, rfl⟩
+    · exact ih.2 s hs
+
+end
+
 end Scico.Driver
